@@ -435,15 +435,26 @@ package ring
 //@   modifies nothing
 //@
 //@ # read-only helpers of the index construction: they do not change the descriptor (frame obligations, proved)
+//@ # per-zone lists of token lists: every list strictly sorted, lists of one zone pairwise disjoint
+//@ pred zoneListsOK(zones map[string][][]uint32) = (forall z string, x int :: in(z, zones) && 0 <= x && x < len(zones[z]) ==> sortedStrict(zones[z][x])) &&
+//@      (forall z string, x, y, i, j int :: in(z, zones) && 0 <= x && x < y && y < len(zones[z]) && 0 <= i && i < len(zones[z][x]) && 0 <= j && j < len(zones[z][y]) ==> zones[z][x][i] != zones[z][y][j])
 //@ func MergeTokensByZone
 //@   property C05
 //@   ensures  keys: forall z string :: in(z, result) <==> in(z, zones)
+//@   ensures  merged: zoneListsOK(zones) ==> (forall z string :: in(z, result) ==> sortedStrict(result[z]) &&
+//@              (forall i int :: 0 <= i && i < len(result[z]) ==> (exists x, j int :: 0 <= x && x < len(zones[z]) && 0 <= j && j < len(zones[z][x]) && zones[z][x][j] == result[z][i])))
 //@   loop 0 invariant !isnil(out) && same($coll, zones) && (forall z string :: in(z, out) <==> $visited[z])
+//@   loop 0 invariant zoneListsOK(zones) ==> (forall z string :: in(z, out) ==> sortedStrict(out[z]) &&
+//@              (forall i int :: 0 <= i && i < len(out[z]) ==> (exists x, j int :: 0 <= x && x < len(zones[z]) && 0 <= j && j < len(zones[z][x]) && zones[z][x][j] == out[z][i])))
 //@   modifies nothing
 //@ func Desc.getTokensByZone
 //@   property C05
 //@   ensures  keys: forall id string :: in(id, d.Ingesters) ==> in(d.Ingesters[id].Zone, result)
+//@   ensures  zone_tokens: descTokensOK(d) ==> (forall z string :: in(z, result) ==> sortedStrict(result[z]) &&
+//@              (forall i int :: 0 <= i && i < len(result[z]) ==> (exists id string, j int :: in(id, d.Ingesters) && 0 <= j && j < len(d.Ingesters[id].Tokens) && d.Ingesters[id].Tokens[j] == result[z][i])))
 //@   loop 0 invariant !isnil(zones) && same(d, old(d)) && (forall id string :: $visited[id] && in(id, d.Ingesters) ==> in(d.Ingesters[id].Zone, zones))
+//@   loop 0 invariant lists: descTokensOK(d) ==> (forall z string, x int :: in(z, zones) && 0 <= x && x < len(zones[z]) ==> (exists id string :: $visited[id] && in(id, d.Ingesters) && zones[z][x] == d.Ingesters[id].Tokens))
+//@   loop 0 invariant ok: descTokensOK(d) ==> zoneListsOK(zones)
 //@   modifies nothing
 //@ func Desc.getOldestRegisteredTimestamp
 //@   property C05
@@ -488,6 +499,7 @@ package ring
 //@   ensures  zone_list: (forall t uint32 :: in(t, r.ringInstanceByToken) ==> (exists z int :: 0 <= z && z < len(r.ringZones) && r.ringZones[z] == r.ringInstanceByToken[t].Zone)) && (forall a, b int :: 0 <= a && a < b && b < len(r.ringZones) ==> r.ringZones[a] != r.ringZones[b])
 //@   # together: the representation invariants the lookups assume
 //@   ensures  rep: r.cfg.ReplicationFactor >= 1 ==> ringRep(r) && zonesRep(r)
+//@   ensures  zonerep: byZoneRep(r)
 //@
 //@ # the zone list: exactly the keys of the per-zone token map, each once
 //@ func getZones
